@@ -24,11 +24,13 @@ COQ_TARGETS = ['props/C08.vo']
 TRUSTED = ['coq/spec/Walker.v is the definition of "structurally valid" (reviewed against RFC 4271, 4760, '
            '5492, 6793, 7911, 4360, 8092, 4456, 8277, 4364, 7432, 9136, 8955, 8956, 9012, 9830, 6514)',
            'harness/props/c08.py prints the implementation\'s octets as Coq lists (coq_bytes)']
-ASSUMPTIONS = ['the C08_*_valid theorems are about the hand-written models (model/YMsg.v, YOpen.v, YAttr.v, '
-               'YPrefix4.v, YUpdate.v); the models are tied to yabgp by the correspondence runs of C14 and C06 '
-               '(the small-message part is re-run here)',
-               'for constructors without a model (MP families, tunnel encapsulation, SR-TE, PMSI, flowspec) the '
-               'property is checked by the walker on the generated input space only (test level)',
+ASSUMPTIONS = ['the C08_*_valid theorems are about the hand-written models model/YMsg.v (NOTIFICATION, KEEPALIVE, '
+               'ROUTE-REFRESH), YPrefix4.v (IPv4 prefix lists) and YAttr.v (ten standard attributes, one at a time); '
+               'the models are tied to yabgp by the correspondence runs of C14 and C06 (the small-message part is '
+               're-run here); YPrefix4.v models the code repaired by build/proposed/c06-prefix-zero-length.diff',
+               'OPEN, EXTENDED/LARGE COMMUNITIES, the assembly of a whole UPDATE, and every constructor without a '
+               'model (MP families, tunnel encapsulation, SR-TE, PMSI, flowspec) are covered by the walker run on the '
+               'implementation over the generated input space only (test level, not proof)',
                'session context the octets do not show (4-octet AS, add-path, Cisco route-refresh type) is '
                'passed to the walker as the same flags that were passed to the constructor']
 IMPORTS = 'From YV Require Import lib.Base spec.Walker.\n'
@@ -609,7 +611,6 @@ def run(ctx):
     n_corr = 0
     if ctx.coq_ok:
         n_corr, mism = correspondence_small(ctx)
-        run_dir_keep = None  # noqa: F841
     bad, errors = ([], ['spec/Walker.v does not compile']) if not walker_ok else walker_invalid(ctx, cases, msgs)
     for e in errors:
         mism.append({'what': e})
